@@ -737,19 +737,27 @@ impl Transformer {
         }
 
         let mut has_svg_element = false;
+        // A namespaced `<svg>` is passed through untouched (see `Container`), so if
+        // that is the first `<svg>` found, this document is a fragment with no root.
+        let is_root_svg = |ev: &OutputEvent| {
+            !matches!(ev, OutputEvent::Start(e) | OutputEvent::Empty(e)
+                if e.get_attr("xmlns").as_deref() == Some("http://www.w3.org/2000/svg"))
+        };
         if let (pre_svg, Some(first_svg), remain) = events.partition("svg") {
-            pre_svg.write_to(writer)?;
-            // The root is always written as a start tag (styles etc may follow it),
-            // so an empty root element (`<svg/>`) needs a matching end tag adding.
-            let empty_root = matches!(first_svg, OutputEvent::Empty(_));
-            self.write_root_svg(first_svg, bbox, writer)?;
-            events = remain;
-            if empty_root {
-                let mut closed = vec![OutputEvent::End("svg".to_owned())];
-                closed.extend(events);
-                events = OutputList::from(closed);
+            if is_root_svg(&first_svg) {
+                pre_svg.write_to(writer)?;
+                // The root is always written as a start tag (styles etc may follow it),
+                // so an empty root element (`<svg/>`) needs a matching end tag adding.
+                let empty_root = matches!(first_svg, OutputEvent::Empty(_));
+                self.write_root_svg(first_svg, bbox, writer)?;
+                events = remain;
+                if empty_root {
+                    let mut closed = vec![OutputEvent::End("svg".to_owned())];
+                    closed.extend(events);
+                    events = OutputList::from(closed);
+                }
+                has_svg_element = true;
             }
-            has_svg_element = true;
         }
 
         if self.context.config.debug {
